@@ -105,6 +105,10 @@ impl<T> Serialize for BitWriter<T> where T: Fn(u16) -> Result<bool, ExceptionCod
 //@exit 0| }
 }
 impl<T> Loggable for BitWriter<T> where T: Fn(u16) -> Result<bool, ExceptionCode> {}
+impl<T> BitWriter<T> where T: Fn(u16) -> Result<bool, ExceptionCode> {
+//@fn rodbus/src/common/serialize.rs | Loggable for BitWriter<T>::log | tags=C07,C20 | inherent r28 r10 r10id=0
+//@|    requires self.ser_pre(),      // the writer holds a validated, limited range (of_read_bits / of_read_registers)
+}
 
 pub open spec fn reported_reg<T: Fn(u16) -> Result<u16, ExceptionCode>>(g: T, start: u16, i: int, v: u16) -> bool {
     g.ensures(((start + i) as u16,), Ok(v))
@@ -155,3 +159,7 @@ impl<T> Serialize for RegisterWriter<T> where T: Fn(u16) -> Result<u16, Exceptio
 //@exit 0| }
 }
 impl<T> Loggable for RegisterWriter<T> where T: Fn(u16) -> Result<u16, ExceptionCode> {}
+impl<T> RegisterWriter<T> where T: Fn(u16) -> Result<u16, ExceptionCode> {
+//@fn rodbus/src/common/serialize.rs | Loggable for RegisterWriter<T>::log | tags=C07,C20 | inherent r28 r10 r10id=0
+//@|    requires self.ser_pre(),      // the writer holds a validated, limited range (of_read_bits / of_read_registers)
+}
